@@ -709,6 +709,22 @@ func vfNonTrivialProd(id string, run *vfProdRun, r *vfcore.Rec, failed bool, fir
 				seen[k] = true
 			}
 		}
+	case "C17":
+		leaderless := false
+		for _, tp := range c.Topics {
+			for _, l := range tp.Leaders {
+				if l < 0 {
+					leaderless = true
+				}
+			}
+		}
+		if leaderless {
+			r.Class("leaderless-subset")
+		}
+		r.Class("partitioner=" + c.Conf.Partitioner)
+		if leaderless || c.Conf.Partitioner == "bad" || c.Conf.Partitioner == "hash" || c.Conf.Partitioner == "refhash" {
+			r.NonTrivial("")
+		}
 	case "C18":
 		// a message retried at least once
 		if failed {
@@ -812,6 +828,126 @@ func vfOracleC18Prod(run *vfProdRun) *vfcore.Failure {
 
 func TestVF_C18_Producer(t *testing.T) {
 	vfcore.Main(t, vfProdSpec("C18", "C18", vfOracleC18Prod, vfOracleC01))
+}
+
+// ------------------------------------------------------------------------------------ C17 (routing)
+
+func vfOracleC17Routing(run *vfProdRun) *vfcore.Failure {
+	c := run.c
+	if !run.created {
+		return nil
+	}
+	if run.hang != "" {
+		return run.fail("hang", "%s", run.hang)
+	}
+	v := run.view()
+	sentTo := map[int]map[string]bool{}
+	for _, e := range v.produces {
+		for _, id := range e.Ids {
+			if sentTo[id] == nil {
+				sentTo[id] = map[string]bool{}
+			}
+			sentTo[id][strings.TrimPrefix(e.Key, "produce/")] = true
+		}
+	}
+	outOf := map[int]vfOutcome{}
+	for _, o := range run.outcomes {
+		if o.Idx >= 0 {
+			outOf[o.Idx] = o
+		}
+	}
+	choice := map[int]vfPartChoice{}
+	for _, ch := range run.choices {
+		if _, dup := choice[ch.Idx]; dup {
+			return run.fail("partitioner-asked-twice", "the partitioner was consulted twice for message %d", ch.Idx)
+		}
+		choice[ch.Idx] = ch
+	}
+	for _, idx := range run.submitted {
+		spec := &c.Msgs[idx]
+		topic := c.Topics[spec.Topic]
+		keyed := spec.KeyKind != 0
+		consistent := false
+		switch c.Conf.Partitioner {
+		case "manual":
+			consistent = true
+		case "hash", "refhash":
+			consistent = keyed
+		}
+		var offered []int32
+		for p, l := range topic.Leaders {
+			if consistent || l >= 0 {
+				offered = append(offered, int32(p))
+			}
+		}
+		o, hasOut := outOf[idx]
+		if !hasOut {
+			return run.fail("lost-outcome", "message %d has no outcome", idx)
+		}
+		notSent := func(why string, wantErr string) *vfcore.Failure {
+			if len(sentTo[idx]) > 0 {
+				return run.fail("sent-despite-"+why, "message %d (%s) was sent to %v", idx, why, sentTo[idx])
+			}
+			if o.Ok {
+				return run.fail("success-despite-"+why, "message %d (%s) was reported successful", idx, why)
+			}
+			if wantErr != "" && o.Err != wantErr && !strings.Contains(o.Err, "circuit breaker") {
+				return run.fail("wrong-error-for-"+why, "message %d (%s) failed with %q, expected %q", idx, why, o.Err, wantErr)
+			}
+			return nil
+		}
+		ch, asked := choice[idx]
+		if len(offered) == 0 {
+			if f := notSent("no-partition-available", ErrLeaderNotAvailable.Error()); f != nil {
+				return f
+			}
+			continue
+		}
+		if !asked {
+			if strings.Contains(o.Err, "circuit breaker") {
+				continue
+			}
+			return run.fail("partitioner-not-asked", "message %d: %d partitions could be offered but the partitioner was never consulted (outcome %q)", idx, len(offered), o.Err)
+		}
+		if int(ch.N) != len(offered) {
+			return run.fail("partitioner-offered", "message %d (keyed=%v, partitioner %s): offered %d partitions, expected %d (%v)", idx, keyed, c.Conf.Partitioner, ch.N, len(offered), offered)
+		}
+		switch {
+		case ch.Err:
+			if f := notSent("partitioner-error", "vf: scripted partitioner error"); f != nil {
+				return f
+			}
+		case ch.Choice < 0 || ch.Choice >= ch.N:
+			if f := notSent("invalid-choice", ErrInvalidPartition.Error()); f != nil {
+				return f
+			}
+		default:
+			target := offered[ch.Choice]
+			key := fmt.Sprintf("%s/%d", topic.Name, target)
+			for k := range sentTo[idx] {
+				if k != key {
+					return run.fail("sent-to-wrong-partition", "message %d: partitioner chose index %d = partition %d, but it was sent to %s", idx, ch.Choice, target, k)
+				}
+			}
+			if topic.Leaders[target] < 0 {
+				if f := notSent("leaderless-target", ""); f != nil {
+					return f
+				}
+				continue
+			}
+			if o.Ok && o.Part != target {
+				return run.fail("partition-mismatch", "message %d: partitioner chose partition %d, success reports %d", idx, target, o.Part)
+			}
+			if o.Ok && !sentTo[idx][key] {
+				return run.fail("success-without-send", "message %d reported successful on %s but no broker received it", idx, key)
+			}
+		}
+	}
+	return nil
+}
+
+func TestVF_C17_Routing(t *testing.T) {
+	vfcore.Main(t, vfProdSpec("C17", "C17", vfOracleC17Routing, vfOracleC01))
 }
 
 func TestVF_C16(t *testing.T) { vfcore.Main(t, vfProdSpec("C16", "C16", vfOracleC16)) }
